@@ -220,6 +220,34 @@ Proof.
   - apply Nat.ltb_lt in Hc. lia.
 Qed.
 
+(* per protocol: once the request is a stream - whole request sent for bolt and HTTP/1.1, HEADERS sent for HTTP/2 - it is
+   waited for *)
+Lemma req_of_done x : x_wf x -> stream_at x <= x_done x -> r_done (req_of x) = x_done x.
+Proof.
+  intros (H1 & H2 & H3) H4. unfold r_done, req_of; cbn.
+  assert (x_first x <= stream_at x) by (unfold stream_at; destruct (x_proto x); lia). lia.
+Qed.
+
+Theorem inflight_complete_proto xs pt max x e :
+  increasing pt -> In x xs -> x_wf x ->
+  stream_at x <= pt 0 -> pt 0 < x_done x ->
+  x_done x - pt 0 <= max ->
+  drain_exit (map req_of xs) pt max = Some e ->
+  x_done x <= pt e.
+Proof.
+  intros Hi Hin Hw Hs Hd Hrem He.
+  assert (Hsd : stream_at x <= x_done x) by lia.
+  pose proof (req_of_done x Hw Hsd) as Hdone.
+  rewrite <- Hdone. apply (inflight_complete (map req_of xs) pt max (req_of x) e Hi).
+  - apply in_map. exact Hin.
+  - unfold r_active. rewrite Hdone. unfold r_decoded, req_of; cbn.
+    destruct Hw as (H1 & H2 & H3).
+    assert (x_first x <= stream_at x) by (unfold stream_at; destruct (x_proto x); lia).
+    apply andb_true_iff. split; [apply Nat.leb_le; lia|apply Nat.ltb_lt; lia].
+  - rewrite Hdone. exact Hrem.
+  - exact He.
+Qed.
+
 (* the loop does not overstay: every poll before the exit was within the drain time and saw an active request *)
 Theorem drain_no_overstay rs pt max e :
   drain_exit rs pt max = Some e -> forall j, j < e -> pt j - pt 0 <= max /\ 0 < gauge rs (pt j).
